@@ -183,7 +183,7 @@ theorem TaskOK.transport {P : Program} {depth : Node → Nat} {s s' : St} {tk tk
       (taskErrors s' = [] ∧ s'.res P.g.output = none) ∨ tk'.st ≠ .blocked (.cond .run))
     (hready : ∀ d m, tk'.st = .blocked (.cond (.node m)) → ready P s' d m = true →
       (ready P s d m = true → OwnerM P s m) → OwnerM P s' m)
-    (hstore : ∀ d q pc, tk.frames = [.node d q false pc] → s.res q = none → s'.res q = none) :
+    (hstore : ∀ d q pc, tk.frames = [.node d q false pc] → pc ≠ .start → pc ≠ .evWait → s.res q = none → s'.res q = none) :
     TaskOK P depth s' tk' := by
   cases h with
   | callerStart hn hfr hst hlen => exact absurd hlen hlen1
@@ -218,7 +218,7 @@ theorem TaskOK.transport {P : Program} {depth : Node → Nat} {s s' : St} {tk tk
       · rw [h] at hw; cases hw; exact Or.inl ⟨⟨_, hr⟩, hwk⟩
   | nodeExec d0 q pc hn hns hfr hpc1 hpc2 hlive hproc hnores =>
     exact .nodeExec tk' d0 q pc (by rw [te.name]; exact hn) hns (by rw [te.frames]; exact hfr) hpc1 hpc2 (te.live hlive)
-      (hproc' q hproc) (hstore d0 q pc hfr hnores)
+      (hproc' q hproc) (hstore d0 q pc hfr hpc1 hpc2 hnores)
   | nodeDone q r0 hn hns hfr hst hnc hev =>
     exact .nodeDone tk' q r0 (by rw [te.name]; exact hn) hns (by rw [te.frames]; exact hfr) (te.done hst) hnc (hev' q hev)
   | swStart d0 S0 hn hsS hfr hst =>
@@ -260,7 +260,7 @@ theorem Struct.close {P : Program} {depth : Node → Nat} {s s1 : St} {t : Nat} 
       tki.st = .blocked (.cond (.node m)) → ready P s1 d m = true → (ready P s d m = true → OwnerM P s m) →
       OwnerM P (s1.setTask t tk') m)
     (hstore : ∀ (i : Nat) (tk : Task) (d : DagRef) (q : Node) (pc : NodePc), i ≠ t → s.tasks[i]? = some tk →
-      tk.frames = [.node d q false pc] → s.res q = none → s1.res q = none)
+      tk.frames = [.node d q false pc] → pc ≠ .start → pc ≠ .evWait → s.res q = none → s1.res q = none)
     (hmain : t = 0 → tk'.frames = [.mgrWait] → ∃ tk1, s1.tasks[1]? = some tk1 ∧ tk1.name = .run)
     (hnew : ∀ (i : Nat) (tk : Task), s.tasks.length ≤ i → s1.tasks[i]? = some tk → TaskOK P depth (s1.setTask t tk') tk) :
     Struct P depth (s1.setTask t tk') := by
@@ -297,8 +297,8 @@ theorem Struct.close {P : Program} {depth : Node → Nat} {s s1 : St} {t : Nat} 
           · exact Or.inr (h tk (List.mem_of_getElem? hi))
         · intro d m hb hr hold'
           exact hready i tk d m hit hi hb hr hold'
-        · intro d q pc hf hn
-          exact hstore i tk0 d q pc hit h0 hf hn
+        · intro d q pc hf hp1 hp2 hn
+          exact hstore i tk0 d q pc hit h0 hf hp1 hp2 hn
       · exact hnew i tk (Nat.le_of_not_lt hold) hi
   · -- the caller's task keeps its name
     obtain ⟨tk0, h0, hn0⟩ := hs.caller
@@ -325,5 +325,971 @@ theorem Struct.close {P : Program} {depth : Node → Nat} {s s1 : St} {t : Nat} 
         exact ⟨tk', hget_t, by rw [hnm]; exact hnm'⟩
       · obtain ⟨tkm', hm', tem⟩ := e.old 1 tkm hm (Ne.symm ht1)
         exact ⟨tkm', by rw [hget_o 1 (Ne.symm ht1)]; exact hm', by rw [tem.name]; exact hnm'⟩
+
+/-! ### the primitive updates as extensions -/
+
+theorem wakeIf_taskExt (s' : St) (p : Wait → Bool) (hp : ∀ w, p w = true → Woke s' w) (tk : Task) :
+    TaskExt s' tk (wakeIf p tk) := by
+  refine ⟨?_, ?_, ?_, ?_⟩
+  · unfold wakeIf; split <;> (try split) <;> rfl
+  · unfold wakeIf; split <;> (try split) <;> rfl
+  · unfold wakeIf; split <;> (try split) <;> rfl
+  · unfold wakeIf
+    split
+    · next w hw =>
+      split
+      · next hpw => exact Or.inr ⟨w, hw, rfl, hp w hpw⟩
+      · exact Or.inl rfl
+    · exact Or.inl rfl
+
+theorem wakeIf_runnable (p : Wait → Bool) (tk : Task) (h : ∃ rv, tk.st = .runnable rv) : wakeIf p tk = tk := by
+  obtain ⟨rv, h⟩ := h
+  unfold wakeIf
+  rw [h]
+
+/-- an update that maps the task list through a wake-up function and lets the storage grow -/
+theorem Ext.of_wake {t : Nat} {s s' : St} (p : Wait → Bool) (ht : s'.tasks = s.tasks.map (wakeIf p))
+    (hp : ∀ w, p w = true → Woke s' w) (hrt : ∀ tkt, s.tasks[t]? = some tkt → ∃ rv, tkt.st = .runnable rv)
+    (hres : ∀ n v, s.res n = some v → s'.res n = some v) (hsw : ∀ S lc, s.sw S = some lc → s'.sw S = some lc)
+    (hproc : ∀ n, s.proc n = true → s'.proc n = true) (hev : ∀ n, s.evSet n = true → s'.evSet n = true) :
+    Ext t s s' := by
+  refine ⟨?_, ?_, hres, hsw, hproc, hev⟩
+  · intro i tk hi _
+    refine ⟨wakeIf p tk, ?_, wakeIf_taskExt s' p hp tk⟩
+    rw [ht, List.getElem?_map, hi]; rfl
+  · rw [ht, List.getElem?_map]
+    cases hs : s.tasks[t]? with
+    | none => rfl
+    | some tkt => simp only [Option.map_some]; rw [wakeIf_runnable p tkt (hrt tkt hs)]
+
+theorem Ext.notify {t : Nat} {s : St} (k : Key) (hrt : ∀ tkt, s.tasks[t]? = some tkt → ∃ rv, tkt.st = .runnable rv) :
+    Ext t s (notify s k) :=
+  Ext.of_wake _ rfl (by intro w hw; cases w <;> simp_all [Woke]) hrt (fun _ _ h => h) (fun _ _ h => h) (fun _ h => h)
+    (fun _ h => h)
+
+/-- the stepping task stays what it is under an extension -/
+theorem Ext.runnable_t {t : Nat} {s s' : St} (e : Ext t s s')
+    (hrt : ∀ tkt, s.tasks[t]? = some tkt → ∃ rv, tkt.st = .runnable rv) :
+    ∀ tkt, s'.tasks[t]? = some tkt → ∃ rv, tkt.st = .runnable rv := by
+  intro tkt h; rw [e.self] at h; exact hrt tkt h
+
+theorem Ext.notifyAll {t : Nat} (ks : List Key) : ∀ {s : St},
+    (∀ tkt, s.tasks[t]? = some tkt → ∃ rv, tkt.st = .runnable rv) → Ext t s (notifyAll s ks) := by
+  induction ks with
+  | nil => intro s _; exact Ext.refl t s
+  | cons k ks ih =>
+    intro s hrt
+    simp only [Eng.notifyAll, List.foldl_cons]
+    have e1 := Ext.notify (t := t) (s := s) k hrt
+    exact e1.trans (ih (e1.runnable_t hrt))
+
+theorem Ext.setEvent {t : Nat} {s : St} (n : Node) (hrt : ∀ tkt, s.tasks[t]? = some tkt → ∃ rv, tkt.st = .runnable rv) :
+    Ext t s (setEvent s n) := by
+  refine Ext.of_wake _ rfl ?_ hrt (fun _ _ h => h) (fun _ _ h => h) (fun _ h => h) ?_
+  · intro w hw
+    cases w with
+    | event q =>
+      simp only [beq_iff_eq] at hw
+      subst hw
+      simp [Woke, Eng.setEvent, upd]
+    | cond k => simp at hw
+    | gate => simp at hw
+    | sleep => simp at hw
+  · intro m hm
+    simp only [Eng.setEvent, upd]
+    split
+    · rfl
+    · exact hm
+
+theorem Ext.nodeFinally {P : Program} {t : Nat} {s : St} (d : DagRef) (n : Node)
+    (hrt : ∀ tkt, s.tasks[t]? = some tkt → ∃ rv, tkt.st = .runnable rv) : Ext t s (nodeFinally P s d n true) := by
+  unfold Eng.nodeFinally
+  simp only [Bool.not_true, Bool.false_eq_true, if_false]
+  have e1 := Ext.setEvent (t := t) (s := s) n hrt
+  have e2 := Ext.notifyAll (t := t) ((P.g.desc1 n).map Key.node) (e1.runnable_t hrt)
+  have h2 := (e1.trans e2)
+  have e3 := Ext.notify (t := t) .run (e2.runnable_t (e1.runnable_t hrt))
+  split
+  · exact (h2.trans e3).trans (Ext.notify _ (e3.runnable_t (e2.runnable_t (e1.runnable_t hrt))))
+  · exact h2.trans e3
+
+/-- an update of the storage only -/
+theorem Ext.of_data {t : Nat} {s s' : St} (ht : s'.tasks = s.tasks)
+    (hres : ∀ n v, s.res n = some v → s'.res n = some v) (hsw : ∀ S lc, s.sw S = some lc → s'.sw S = some lc)
+    (hproc : ∀ n, s.proc n = true → s'.proc n = true) (hev : ∀ n, s.evSet n = true → s'.evSet n = true) :
+    Ext t s s' :=
+  ⟨fun i tk hi _ => ⟨tk, by rw [ht]; exact hi, TaskExt.refl s' tk⟩, by rw [ht], hres, hsw, hproc, hev⟩
+
+theorem Ext.markProcessed {t : Nat} (s : St) (n : Node) : Ext t s (s.markProcessed n) := by
+  refine Ext.of_data rfl (fun _ _ h => h) (fun _ _ h => h) ?_ (fun _ h => h)
+  intro m hm
+  simp only [St.markProcessed, upd]
+  split
+  · rfl
+  · exact hm
+
+theorem Ext.setRes {t : Nat} (s : St) (n : Node) (v : Val) (hn : s.res n = none) : Ext t s (s.setRes n v) := by
+  refine Ext.of_data rfl ?_ (fun _ _ h => h) (fun _ h => h) (fun _ h => h)
+  intro m w hm
+  simp only [St.setRes, upd]
+  split
+  · next he => subst he; rw [hn] at hm; cases hm
+  · exact hm
+
+theorem Ext.setSw {t : Nat} (s : St) (S : Node) (lc : Label × Node) (hold : ∀ lc', s.sw S = some lc' → lc' = lc) :
+    Ext t s (s.setSw S lc) := by
+  refine Ext.of_data rfl (fun _ _ h => h) ?_ (fun _ h => h) (fun _ h => h)
+  intro T lc' hT
+  simp only [St.setSw, upd]
+  split
+  · next he => subst he; rw [hold lc' hT]
+  · exact hT
+
+theorem Ext.spawn {t : Nat} (s : St) (fs : List Frame) (nm : TaskName) (ht : t < s.tasks.length) :
+    Ext t s (spawn s fs nm).1 := by
+  refine ⟨?_, ?_, fun _ _ h => h, fun _ _ h => h, fun _ h => h, fun _ h => h⟩
+  · intro i tk hi _
+    refine ⟨tk, ?_, TaskExt.refl _ tk⟩
+    simp only [Eng.spawn]
+    rw [List.getElem?_append_left (getElem?_lt hi)]
+    exact hi
+  · simp only [Eng.spawn]
+    rw [List.getElem?_append_left ht]
+
+/-! ### helpers for re-establishing the storage part after a section -/
+
+/-- lookup after task `t` installed its new entry -/
+theorem getElem?_close {s1 : St} {t : Nat} {tk' : Task} (hlt : t < s1.tasks.length) (i : Nat) :
+    (s1.setTask t tk').tasks[i]? = if i = t then some tk' else s1.tasks[i]? := by
+  simp only [St.setTask]
+  split
+  · next h => subst h; exact List.getElem?_set_self hlt
+  · next h => exact List.getElem?_set_ne (Ne.symm h)
+
+theorem Ext.lt {t : Nat} {s s1 : St} (e : Ext t s s1) {tkt : Task} (h : s.tasks[t]? = some tkt) : t < s1.tasks.length :=
+  getElem?_lt (show s1.tasks[t]? = some tkt by rw [e.self]; exact h)
+
+/-- a live executor other than the stepping task is still there -/
+theorem Executor.close {t : Nat} {s s1 : St} (e : Ext t s s1) {tkt tk' : Task} (htkt : s.tasks[t]? = some tkt) {n : Node}
+    (h : Executor s n) (hnot : ∀ d f pc, tkt.frames = [.node d n f pc] → pc.exec = true → False) :
+    Executor (s1.setTask t tk') n := by
+  obtain ⟨i, tk, hi, hl, d, f, pc, hf, hpc⟩ := h
+  by_cases hit : i = t
+  · subst hit
+    rw [htkt] at hi; cases hi
+    exact absurd hpc (by intro h'; exact hnot d f pc hf h')
+  · obtain ⟨tk1, h1, te⟩ := e.old i tk hi hit
+    refine ⟨i, tk1, ?_, te.live hl, d, f, pc, by rw [te.frames]; exact hf, hpc⟩
+    rw [getElem?_close (e.lt htkt), if_neg hit]; exact h1
+
+/-- the owner of a switch other than the stepping task is still there -/
+theorem SwOwner.close {t : Nat} {s s1 : St} (e : Ext t s s1) {tkt tk' : Task} (htkt : s.tasks[t]? = some tkt) {S : Node}
+    (h : SwOwner s S)
+    (hnew : ((∃ d, tkt.frames = [.switchStart d S]) ∨ (∃ d, tkt.frames = [.switchRet d S]) ∨
+        (∃ d sub, tkt.frames = [.dagInit sub, .switchRet d S]) ∨
+        (∃ d sub rest, tkt.frames = [.dagLaunch sub rest, .switchRet d S])) → SwOwner (s1.setTask t tk') S) :
+    SwOwner (s1.setTask t tk') S := by
+  obtain ⟨i, tk, hi, hnd, hf⟩ := h
+  by_cases hit : i = t
+  · subst hit
+    rw [htkt] at hi; cases hi
+    exact hnew hf
+  · obtain ⟨tk1, h1, te⟩ := e.old i tk hi hit
+    refine ⟨i, tk1, ?_, te.nonDone hnd, by rw [te.frames]; exact hf⟩
+    rw [getElem?_close (e.lt htkt), if_neg hit]; exact h1
+
+/-- the launch bookkeeping survives when the stepping task — if it was the fresh task of `q` — has processed `q` -/
+theorem Launched.close {P : Program} {t : Nat} {s s1 : St} (e : Ext t s s1) {tkt tk' : Task} (htkt : s.tasks[t]? = some tkt)
+    (hnm : tk'.name = tkt.name) {q : Node} (h : Launched P s q)
+    (hst : ∀ d, tkt.frames = [.node d q false .start] → s1.proc q = true) : Launched P (s1.setTask t tk') q := by
+  unfold Launched at *
+  split
+  · next hq =>
+    simp only [hq, if_true] at h
+    obtain ⟨i, tk, hi, hn⟩ := h
+    by_cases hit : i = t
+    · subst hit
+      rw [htkt] at hi; cases hi
+      exact ⟨i, tk', by rw [getElem?_close (e.lt htkt), if_pos rfl], by rw [hnm]; exact hn⟩
+    · obtain ⟨tk1, h1, te⟩ := e.old i tk hi hit
+      exact ⟨i, tk1, by rw [getElem?_close (e.lt htkt), if_neg hit]; exact h1, by rw [te.name]; exact hn⟩
+  · next hq =>
+    simp only [hq] at h
+    rcases h with h | ⟨i, tk, d, hi, hf, hst'⟩
+    · exact Or.inl (e.proc q h)
+    · by_cases hit : i = t
+      · subst hit
+        rw [htkt] at hi; cases hi
+        exact Or.inl (hst d hf)
+      · obtain ⟨tk1, h1, te⟩ := e.old i tk hi hit
+        refine Or.inr ⟨i, tk1, d, by rw [getElem?_close (e.lt htkt), if_neg hit]; exact h1, by rw [te.frames]; exact hf, ?_⟩
+        rcases te.st with h2 | ⟨w, hw, _, _⟩
+        · rw [h2]; exact hst'
+        · rw [hst'] at hw; cases hw
+
+/-- nobody is cancelled after the section -/
+theorem noCancel_close {t : Nat} {s s1 : St} (e : Ext t s s1) {tkt tk' : Task} (htkt : s.tasks[t]? = some tkt)
+    (hs : ∀ tk ∈ s.tasks, tk.mustCancel = false) (hc : tk'.mustCancel = false)
+    (hnew : ∀ (i : Nat) (tk : Task), s.tasks.length ≤ i → s1.tasks[i]? = some tk → tk.mustCancel = false) :
+    ∀ tk ∈ (s1.setTask t tk').tasks, tk.mustCancel = false := by
+  intro tk htk
+  obtain ⟨i, hi, hieq⟩ := List.getElem_of_mem htk
+  have hget : (s1.setTask t tk').tasks[i]? = some tk := by rw [List.getElem?_eq_getElem hi, hieq]
+  rw [getElem?_close (e.lt htkt)] at hget
+  by_cases hit : i = t
+  · rw [if_pos hit] at hget
+    cases hget; exact hc
+  · rw [if_neg hit] at hget
+    by_cases hold : i < s.tasks.length
+    · obtain ⟨tk0, h0⟩ : ∃ tk0, s.tasks[i]? = some tk0 := ⟨s.tasks[i], by simp [hold]⟩
+      obtain ⟨tk1, h1, te⟩ := e.old i tk0 h0 hit
+      rw [h1] at hget; cases hget
+      rw [te.cancel]; exact hs tk0 (List.mem_of_getElem? h0)
+    · exact hnew i _ (Nat.le_of_not_lt hold) hget
+
+theorem mem_taskErrors_iff {s : St} {e : Exc} :
+    e ∈ taskErrors s ↔ ∃ (i : Nat) (tk : Task), s.tasks[i]? = some tk ∧ tk.st = .done (.exc e) := by
+  unfold taskErrors
+  rw [List.mem_filterMap]
+  constructor
+  · rintro ⟨tk, htk, h⟩
+    obtain ⟨i, hi, rfl⟩ := List.getElem_of_mem htk
+    refine ⟨i, _, List.getElem?_eq_getElem hi, ?_⟩
+    split at h
+    · next e' he' => cases h; exact he'
+    · cases h
+  · rintro ⟨i, tk, hi, hst⟩
+    exact ⟨tk, List.mem_of_getElem? hi, by simp [hst]⟩
+
+/-- old failures are still there -/
+theorem taskErrors_close_mono {t : Nat} {s s1 : St} (e : Ext t s s1) {tkt tk' : Task} (htkt : s.tasks[t]? = some tkt)
+    (hrt : ∃ rv, tkt.st = .runnable rv) (h : taskErrors s ≠ []) : taskErrors (s1.setTask t tk') ≠ [] := by
+  obtain ⟨x, hx⟩ := List.exists_mem_of_ne_nil _ h
+  rw [mem_taskErrors_iff] at hx
+  obtain ⟨i, tk, hi, hst⟩ := hx
+  have hit : i ≠ t := by
+    intro h'; subst h'; rw [htkt] at hi; cases hi
+    obtain ⟨rv, hr⟩ := hrt; rw [hr] at hst; cases hst
+  obtain ⟨tk1, h1, te⟩ := e.old i tk hi hit
+  have : x ∈ taskErrors (s1.setTask t tk') := by
+    rw [mem_taskErrors_iff]
+    exact ⟨i, tk1, by rw [getElem?_close (e.lt htkt), if_neg hit]; exact h1, te.done hst⟩
+  intro h0; rw [h0] at this; cases this
+
+/-- a task that ends with an exception is a failure -/
+theorem taskErrors_close_exc {t : Nat} {s s1 : St} (e : Ext t s s1) {tkt tk' : Task} (htkt : s.tasks[t]? = some tkt)
+    {x : Exc} (h : tk'.st = .done (.exc x)) : taskErrors (s1.setTask t tk') ≠ [] := by
+  have : x ∈ taskErrors (s1.setTask t tk') := by
+    rw [mem_taskErrors_iff]
+    exact ⟨t, tk', by rw [getElem?_close (e.lt htkt), if_pos rfl], h⟩
+  intro h0; rw [h0] at this; cases this
+
+/-- no new failure: the stepping task does not end with an exception and creates no finished task -/
+theorem taskErrors_close_nil {t : Nat} {s s1 : St} (e : Ext t s s1) {tkt tk' : Task} (htkt : s.tasks[t]? = some tkt)
+    (h : taskErrors s = []) (hst : ∀ x, tk'.st ≠ .done (.exc x))
+    (hnew : ∀ (i : Nat) (tk : Task), s.tasks.length ≤ i → s1.tasks[i]? = some tk → ∀ x, tk.st ≠ .done (.exc x)) :
+    taskErrors (s1.setTask t tk') = [] := by
+  apply Classical.byContradiction
+  intro hne
+  obtain ⟨x, hx⟩ := List.exists_mem_of_ne_nil _ hne
+  rw [mem_taskErrors_iff] at hx
+  obtain ⟨i, tk, hi, hd⟩ := hx
+  rw [getElem?_close (e.lt htkt)] at hi
+  by_cases hit : i = t
+  · rw [if_pos hit] at hi; cases hi; exact hst x hd
+  · rw [if_neg hit] at hi
+    by_cases hold : i < s.tasks.length
+    · obtain ⟨tk0, h0⟩ : ∃ tk0, s.tasks[i]? = some tk0 := ⟨s.tasks[i], by simp [hold]⟩
+      obtain ⟨tk1, h1, te⟩ := e.old i tk0 h0 hit
+      rw [h1] at hi; cases hi
+      have hd0 : tk0.st = .done (.exc x) := by
+        rcases te.st with h2 | ⟨w, hw, hr, _⟩
+        · rw [← h2]; exact hd
+        · rw [hr] at hd; cases hd
+      have : x ∈ taskErrors s := mem_taskErrors_iff.mpr ⟨i, tk0, h0, hd0⟩
+      rw [h] at this; cases this
+    · exact hnew i tk (Nat.le_of_not_lt hold) hi x hd
+
+/-- one executing task per node, after the section -/
+theorem uniq_close {P : Program} {t : Nat} {s s1 : St} (e : Ext t s s1) (hd : LData P s) {tkt tk' : Task}
+    (htkt : s.tasks[t]? = some tkt)
+    (hself : ∀ d q f pc, tk'.frames = [.node d q f pc] → pc.exec = true →
+      ∀ (j : Nat) (tj : Task) (d2 : DagRef) (f2 : Bool) (p2 : NodePc), j ≠ t → s.tasks[j]? = some tj →
+        tj.frames = [.node d2 q f2 p2] → p2.exec = true → False)
+    (hnew : ∀ (i : Nat) (tk : Task), s.tasks.length ≤ i → s1.tasks[i]? = some tk →
+      ∀ d q f pc, tk.frames = [.node d q f pc] → pc.exec = false) :
+    ∀ (i j : Nat) (ti tj : Task) (q : Node) (d1 d2 : DagRef) (f1 f2 : Bool) (p1 p2 : NodePc),
+      (s1.setTask t tk').tasks[i]? = some ti → (s1.setTask t tk').tasks[j]? = some tj → ti.frames = [.node d1 q f1 p1] →
+      tj.frames = [.node d2 q f2 p2] → p1.exec = true → p2.exec = true → i = j := by
+  -- every task other than `t` with an executing frame was there before, with the same frames
+  have back : ∀ (i : Nat) (ti : Task) (d : DagRef) (q : Node) (f : Bool) (pc : NodePc), i ≠ t →
+      (s1.setTask t tk').tasks[i]? = some ti → ti.frames = [.node d q f pc] → pc.exec = true →
+      ∃ t0, s.tasks[i]? = some t0 ∧ t0.frames = [.node d q f pc] := by
+    intro i ti d q f pc hit hi hf hpc
+    rw [getElem?_close (e.lt htkt), if_neg hit] at hi
+    by_cases hold : i < s.tasks.length
+    · obtain ⟨tk0, h0⟩ : ∃ tk0, s.tasks[i]? = some tk0 := ⟨s.tasks[i], by simp [hold]⟩
+      obtain ⟨tk1, h1, te⟩ := e.old i tk0 h0 hit
+      rw [h1] at hi; cases hi
+      exact ⟨tk0, h0, by rw [← te.frames]; exact hf⟩
+    · have := hnew i ti (Nat.le_of_not_lt hold) hi d q f pc hf
+      rw [this] at hpc; cases hpc
+  intro i j ti tj q d1 d2 f1 f2 p1 p2 hi hj hfi hfj hp1 hp2
+  by_cases hit : i = t
+  · by_cases hjt : j = t
+    · rw [hit, hjt]
+    · exfalso
+      subst hit
+      rw [getElem?_close (e.lt htkt), if_pos rfl] at hi; cases hi
+      obtain ⟨t0, h0, hf0⟩ := back j tj d2 q f2 p2 hjt hj hfj hp2
+      exact hself d1 q f1 p1 hfi hp1 j t0 d2 f2 p2 hjt h0 hf0 hp2
+  · by_cases hjt : j = t
+    · exfalso
+      subst hjt
+      rw [getElem?_close (e.lt htkt), if_pos rfl] at hj; cases hj
+      obtain ⟨t0, h0, hf0⟩ := back i ti d1 q f1 p1 hit hi hfi hp1
+      exact hself d2 q f2 p2 hfj hp2 i t0 d1 f1 p1 hit h0 hf0 hp1
+    · obtain ⟨a, ha, hfa⟩ := back i ti d1 q f1 p1 hit hi hfi hp1
+      obtain ⟨b, hb, hfb⟩ := back j tj d2 q f2 p2 hjt hj hfj hp2
+      exact hd.uniq i j a b q d1 d2 f1 f2 p1 p2 ha hb hfa hfb hp1 hp2
+
+/-! ### sections of a node task -/
+
+theorem evSet_notifyAll (ks : List Key) : ∀ (s : St), (notifyAll s ks).evSet = s.evSet := by
+  induction ks with
+  | nil => intro s; rfl
+  | cons k ks ih => intro s; simp only [Eng.notifyAll, List.foldl_cons]; exact ih (notify s k)
+
+theorem evSet_nodeFinally (P : Program) (s : St) (d : DagRef) (n : Node) :
+    (nodeFinally P s d n true).evSet = upd s.evSet n true := by
+  unfold Eng.nodeFinally
+  simp only [Bool.not_true, Bool.false_eq_true, if_false]
+  split
+  · show (notifyAll (setEvent s n) _).evSet = _
+    rw [evSet_notifyAll]; rfl
+  · show (notifyAll (setEvent s n) _).evSet = _
+    rw [evSet_notifyAll]; rfl
+
+/-- a task other than the caller exists: the task list is longer than one -/
+theorem len_ne_one {P : Program} {depth : Node → Nat} {s : St} (hs : Struct P depth s) {t : Nat} {tkt : Task}
+    (h : s.tasks[t]? = some tkt) (hn : tkt.name ≠ .caller) : s.tasks.length ≠ 1 := by
+  obtain ⟨tk0, h0, hn0⟩ := hs.caller
+  have hlt := getElem?_lt h
+  intro h1
+  have : t = 0 := by omega
+  subst this
+  rw [h0] at h; cases h
+  exact hn hn0
+
+theorem ready_congr {P : Program} {s s' : St} (hres : s'.res = s.res) (hh : s'.resHid = s.resHid) (hsw : s'.sw = s.sw)
+    (d : DagRef) (m : Node) : ready P s' d m = ready P s d m := by
+  unfold ready predsFor St.exists St.get
+  rw [hres, hh, hsw]
+
+theorem switchSelect_congr {P : Program} {s s' : St} (hres : s'.res = s.res) (hh : s'.resHid = s.resHid) (S : Node) :
+    switchSelect P s' S = switchSelect P s S := by
+  unfold switchSelect switchLabel St.get
+  rw [hres, hh]
+
+/-- a node task blocks on its body / its retry timer (or yields before the next attempt): `s1` is `s`, possibly with the
+node marked as processed -/
+theorem struct_node_exec {P : Program} {depth : Node → Nat} {s s1 : St} (hs : Struct P depth s) {t : Nat} {tkt : Task}
+    (htkt : s.tasks[t]? = some tkt) {d : DagRef} {q : Node} {pc0 pc' : NodePc} (hnm : tkt.name = .node q)
+    (hns : P.g.isSwitch q = false) (hf0 : tkt.frames = [.node d q false pc0]) (hrt : ∃ rv, tkt.st = .runnable rv)
+    (hmc : tkt.mustCancel = false)
+    (h1 : (s1 = s ∧ pc0.exec = true ∧ s.proc q = true ∧ s.res q = none) ∨
+          (s1 = s.markProcessed q ∧ pc0 = .start ∧ s.procExists q = false))
+    (hpc' : pc'.exec = true) (st' : TaskSt) (hlive : ({ tkt with frames := [.node d q false pc'], st := st' } : Task).live) :
+    Struct P depth (s1.setTask t { tkt with frames := [.node d q false pc'], st := st' }) := by
+  have hd := hs.data
+  have e : Ext t s s1 := by
+    rcases h1 with ⟨h, _⟩ | ⟨h, _⟩
+    · rw [h]; exact Ext.refl t s
+    · rw [h]; exact Ext.markProcessed s q
+  have htasks : s1.tasks = s.tasks := by rcases h1 with ⟨h, _⟩ | ⟨h, _⟩ <;> rw [h] <;> rfl
+  have hres : s1.res = s.res := by rcases h1 with ⟨h, _⟩ | ⟨h, _⟩ <;> rw [h] <;> rfl
+  have hrh : s1.resHid = s.resHid := by rcases h1 with ⟨h, _⟩ | ⟨h, _⟩ <;> rw [h] <;> rfl
+  have hsw : s1.sw = s.sw := by rcases h1 with ⟨h, _⟩ | ⟨h, _⟩ <;> rw [h] <;> rfl
+  have hev : s1.evSet = s.evSet := by rcases h1 with ⟨h, _⟩ | ⟨h, _⟩ <;> rw [h] <;> rfl
+  have hpq : s1.proc q = true := by
+    rcases h1 with ⟨h0, _, h, _⟩ | ⟨h0, _⟩
+    · rw [h0]; exact h
+    · rw [h0]; simp [St.markProcessed, upd]
+  have hprocs : ∀ n, s1.proc n = true → n = q ∨ s.proc n = true := by
+    intro n hn
+    rcases h1 with ⟨h0, _⟩ | ⟨h0, _⟩
+    · rw [h0] at hn; exact Or.inr hn
+    · rw [h0] at hn
+      simp only [St.markProcessed, upd] at hn
+      split at hn
+      · next h => exact Or.inl h
+      · exact Or.inr hn
+  have hph : ∀ n, s1.procHid n = false := by
+    intro n
+    rcases h1 with ⟨h0, _⟩ | ⟨h0, _⟩
+    · rw [h0]; exact (hd.noHid n).2
+    · rw [h0]; simp only [St.markProcessed, upd]; split
+      · rfl
+      · exact (hd.noHid n).2
+  have hresq : s.res q = none := by
+    rcases h1 with ⟨_, _, _, h⟩ | ⟨_, _, h⟩
+    · exact h
+    · cases hr : s.res q with
+      | none => rfl
+      | some v =>
+        have := hd.c6 q (by rw [hr]; rfl)
+        simp [St.procExists, this, (hd.noHid q).2] at h
+  have hnc : tkt.name ≠ .caller := by rw [hnm]; intro h; cases h
+  have hlen := len_ne_one hs htkt hnc
+  have hlt := e.lt htkt
+  have hnonew : ∀ (i : Nat) (tk : Task), s.tasks.length ≤ i → s1.tasks[i]? = some tk → False := by
+    intro i tk hi h
+    rw [htasks] at h
+    have := getElem?_lt h
+    omega
+  -- no other task executes `q`
+  have hother : ∀ (j : Nat) (tj : Task) (d2 : DagRef) (f2 : Bool) (p2 : NodePc), j ≠ t → s.tasks[j]? = some tj →
+      tj.frames = [.node d2 q f2 p2] → p2.exec = true → False := by
+    intro j tj d2 f2 p2 hjt hj hfj hp2
+    rcases h1 with ⟨_, hp0, _, _⟩ | ⟨_, _, hpe⟩
+    · exact hjt (hd.uniq j t tj tkt q d2 d f2 false p2 pc0 hj htkt hfj hf0 hp2 hp0)
+    · -- `q` was not processed, but an executing task has marked its node
+      have := hs.tasks j tj hj
+      cases this with
+      | nodeExec d0 q0 pc hn' hns' hfr' hpc1 hpc2 hl' hproc' hnr' =>
+        rw [hfr'] at hfj; simp only [List.cons.injEq, Frame.node.injEq, and_true] at hfj
+        obtain ⟨_, hq, _, _⟩ := hfj
+        subst hq
+        simp [St.procExists, hproc', (hd.noHid q0).2] at hpe
+      | nodeStart d0 q0 hn' hns' hfr' hst' =>
+        rw [hfr'] at hfj; simp only [List.cons.injEq, Frame.node.injEq, and_true] at hfj
+        obtain ⟨_, _, _, hp⟩ := hfj; subst hp; cases hp2
+      | nodeWait d0 q0 hn' hns' hfr' hst' hproc' =>
+        rw [hfr'] at hfj; simp only [List.cons.injEq, Frame.node.injEq, and_true] at hfj
+        obtain ⟨_, _, _, hp⟩ := hfj; subst hp; cases hp2
+      | callerStart hn' hfr' => rw [hfr'] at hfj; simp at hfj
+      | callerWait hn' hfr' => rw [hfr'] at hfj; simp at hfj
+      | main F d0 hn' hfr' hdf' => rw [hfr'] at hfj; simp only [List.cons.injEq, and_true] at hfj; subst hfj; cases hdf'
+      | mainDone hn' hfr' => rw [hfr'] at hfj; simp at hfj
+      | nodeDone q0 r0 hn' hns' hfr' => rw [hfr'] at hfj; simp at hfj
+      | swStart d0 S0 hn' hsS' hfr' => rw [hfr'] at hfj; simp at hfj
+      | swIn F sub d0 S0 hn' hsS' hfr' => rw [hfr'] at hfj; simp at hfj
+      | swRet d0 S0 hn' hsS' hfr' => rw [hfr'] at hfj; simp at hfj
+      | swDone S0 r0 hn' hsS' hfr' => rw [hfr'] at hfj; simp at hfj
+  have herr : taskErrors (s1.setTask t { tkt with frames := [.node d q false pc'], st := st' }) = [] ↔
+      taskErrors s = [] := by
+    constructor
+    · intro h
+      apply Classical.byContradiction
+      intro hne
+      exact taskErrors_close_mono e htkt hrt hne h
+    · intro h
+      refine taskErrors_close_nil e htkt h ?_ (fun i tk hi h' => absurd h' (fun h'' => hnonew i tk hi h''))
+      intro x hx
+      rcases hlive with ⟨rv, hr⟩ | ⟨n, i, a, o, hr⟩ | ⟨n, i, a, dl, hr⟩ <;> simp only [] at hr <;> rw [hr] at hx <;> cases hx
+  refine Struct.close hs ⟨tkt, htkt, rfl⟩ e hlen ?_ ?_ ?_ ?_ ?_ ?_ ?_ ?_
+  · -- the storage part
+    refine ⟨fun n => ⟨by rw [show (s1.setTask t _).resHid = s1.resHid from rfl, hrh]; exact (hd.noHid n).1, hph n⟩,
+      fun n v h => hd.noRec n v (by rw [← hres]; exact h), ?_, ?_, ?_, ?_, ?_, ?_, ?_, ?_⟩
+    · intro n hn
+      rcases hprocs n hn with rfl | h
+      · exact Or.inr ⟨t, _, by rw [getElem?_close hlt, if_pos rfl], hlive, d, false, pc', rfl, hpc'⟩
+      · rcases hd.c1 n h with h' | h'
+        · exact Or.inl (by rw [show (s1.setTask t _).evSet = s1.evSet from rfl, hev]; exact h')
+        · by_cases hnq : n = q
+          · subst hnq
+            exact Or.inr ⟨t, _, by rw [getElem?_close hlt, if_pos rfl], hlive, d, false, pc', rfl, hpc'⟩
+          · refine Or.inr (h'.close e htkt ?_)
+            intro d' f' pc hf' _
+            rw [hf0] at hf'; simp only [List.cons.injEq, Frame.node.injEq, and_true] at hf'
+            exact hnq hf'.2.1.symm
+    · intro n hn
+      have hn' : s.evSet n = true := by rw [← hev]; exact hn
+      rcases hd.c4 n hn' with h | h
+      · exact Or.inl (by rw [show (s1.setTask t _).res = s1.res from rfl, hres]; exact h)
+      · exact Or.inr (fun h0 => h (herr.mp h0))
+    · intro n hn
+      rw [show (s1.setTask t _).evSet = s1.evSet from rfl, hev]
+      exact hd.c5 n (by rw [← hres]; exact hn)
+    · intro S l c h
+      exact hd.swEdge S l c (by rw [← hsw]; exact h)
+    · intro S lc h
+      rw [show switchSelect P (s1.setTask t _) S = switchSelect P s1 S from rfl, switchSelect_congr hres hrh]
+      exact hd.swSel S lc (by rw [← hsw]; exact h)
+    · intro n hn
+      have := hd.c6 n (by rw [← hres]; exact hn)
+      exact e.proc n this
+    · refine uniq_close e hd htkt ?_ (fun i tk hi h => absurd h (fun h'' => hnonew i tk hi h''))
+      intro d1 q1 f1 pc1 hfr hpc1 j tj d2 f2 p2 hjt hj hfj hp2
+      simp only [List.cons.injEq, Frame.node.injEq, and_true] at hfr
+      obtain ⟨_, hq1, _, _⟩ := hfr
+      subst hq1
+      exact hother j tj d2 f2 p2 hjt hj hfj hp2
+    · exact noCancel_close e htkt hd.noCancel hmc (fun i tk hi h => absurd h (fun h'' => hnonew i tk hi h''))
+  · exact .nodeExec _ d q pc' hnm hns rfl (by intro h; subst h; cases hpc') (by intro h; subst h; cases hpc') hlive hpq
+      (by rw [show (s1.setTask t _).res = s1.res from rfl, hres]; exact hresq)
+  · intro q' hl
+    refine Launched.close (tk' := { tkt with frames := [.node d q false pc'], st := st' }) e htkt rfl hl ?_
+    intro d' hf'
+    rw [hf0] at hf'; simp only [List.cons.injEq, Frame.node.injEq, and_true] at hf'
+    rw [← hf'.2.1]; exact hpq
+  · intro he0 hr0
+    exact Or.inl ⟨herr.mpr he0, by rw [hres]; exact hr0⟩
+  · intro i tki d' m hit hi hb hrd hold
+    have hrd' : ready P s d' m = true := by rw [← ready_congr hres hrh hsw]; exact hrd
+    obtain ⟨S, hS, hSs, ho⟩ := hold hrd'
+    refine ⟨S, hS, hSs, ho.close e htkt ?_⟩
+    intro hfr
+    rcases hfr with ⟨d1, h⟩ | ⟨d1, h⟩ | ⟨d1, s1', h⟩ | ⟨d1, s1', r1, h⟩ <;> rw [hf0] at h <;> simp at h
+  · intro i tk d' q' pc hit hi hf _ _ hn
+    rw [hres]; exact hn
+  · intro ht0
+    subst ht0
+    obtain ⟨tk0, h0, hn0⟩ := hs.caller
+    rw [h0] at htkt; cases htkt
+    exact absurd hn0 hnc
+  · intro i tk hi h
+    exact absurd h (fun h'' => hnonew i tk hi h'')
+
+/-- the storage part after a section that changed no stored datum (results, decisions, processed flags, events) and whose
+task neither was nor becomes the executor of a node -/
+theorem ldata_same {P : Program} {t : Nat} {s s1 : St} (hd : LData P s) (e : Ext t s s1) {tkt tk' : Task}
+    (htkt : s.tasks[t]? = some tkt) (hrt : ∃ rv, tkt.st = .runnable rv)
+    (hres : s1.res = s.res) (hrh : s1.resHid = s.resHid) (hph : s1.procHid = s.procHid) (hsw : s1.sw = s.sw)
+    (hev : s1.evSet = s.evSet) (hproc : s1.proc = s.proc) (hmc : tk'.mustCancel = false)
+    (hold : ∀ d n f pc, tkt.frames = [.node d n f pc] → pc.exec = false)
+    (hnew : ∀ d n f pc, tk'.frames = [.node d n f pc] → pc.exec = false)
+    (hsp : ∀ (i : Nat) (tk : Task), s.tasks.length ≤ i → s1.tasks[i]? = some tk →
+      tk.mustCancel = false ∧ ∀ d n f pc, tk.frames = [.node d n f pc] → pc.exec = false) :
+    LData P (s1.setTask t tk') := by
+  refine ⟨fun n => ⟨by rw [show (s1.setTask t tk').resHid = s1.resHid from rfl, hrh]; exact (hd.noHid n).1,
+      by rw [show (s1.setTask t tk').procHid = s1.procHid from rfl, hph]; exact (hd.noHid n).2⟩,
+    fun n v h => hd.noRec n v (by rw [← hres]; exact h), ?_, ?_, ?_, ?_, ?_, ?_, ?_, ?_⟩
+  · intro n hn
+    have hn' : s.proc n = true := by rw [← hproc]; exact hn
+    rcases hd.c1 n hn' with h | h
+    · exact Or.inl (by rw [show (s1.setTask t tk').evSet = s1.evSet from rfl, hev]; exact h)
+    · refine Or.inr (h.close e htkt ?_)
+      intro d' f' pc hf' hpc
+      rw [hold d' n f' pc hf'] at hpc; cases hpc
+  · intro n hn
+    have hn' : s.evSet n = true := by rw [← hev]; exact hn
+    rcases hd.c4 n hn' with h | h
+    · exact Or.inl (by rw [show (s1.setTask t tk').res = s1.res from rfl, hres]; exact h)
+    · exact Or.inr (taskErrors_close_mono e htkt hrt h)
+  · intro n hn
+    rw [show (s1.setTask t tk').evSet = s1.evSet from rfl, hev]
+    exact hd.c5 n (by rw [← hres]; exact hn)
+  · intro S l c h
+    exact hd.swEdge S l c (by rw [← hsw]; exact h)
+  · intro S lc h
+    rw [show switchSelect P (s1.setTask t tk') S = switchSelect P s1 S from rfl, switchSelect_congr hres hrh]
+    exact hd.swSel S lc (by rw [← hsw]; exact h)
+  · intro n hn
+    rw [show (s1.setTask t tk').proc = s1.proc from rfl, hproc]
+    exact hd.c6 n (by rw [← hres]; exact hn)
+  · refine uniq_close e hd htkt ?_ (fun i tk hi h => (hsp i tk hi h).2)
+    intro d1 q1 f1 pc1 hfr hpc1
+    rw [hnew d1 q1 f1 pc1 hfr] at hpc1; cases hpc1
+  · exact noCancel_close e htkt hd.noCancel hmc (fun i tk hi h => (hsp i tk hi h).1)
+
+/-- **closing a section that changed no stored datum** -/
+theorem Struct.close_same {P : Program} {depth : Node → Nat} {s s1 : St} {t : Nat} {tkt tk' : Task} (hs : Struct P depth s)
+    (htkt : s.tasks[t]? = some tkt) (hnm : tk'.name = tkt.name) (hrt : ∃ rv, tkt.st = .runnable rv)
+    (hlen1 : s.tasks.length ≠ 1) (e : Ext t s s1)
+    (hres : s1.res = s.res) (hrh : s1.resHid = s.resHid) (hph : s1.procHid = s.procHid) (hsw : s1.sw = s.sw)
+    (hev : s1.evSet = s.evSet) (hproc : s1.proc = s.proc) (hmc : tk'.mustCancel = false)
+    (hold : ∀ d n f pc, tkt.frames = [.node d n f pc] → pc.exec = false)
+    (hnewf : ∀ d n f pc, tk'.frames = [.node d n f pc] → pc.exec = false)
+    (hnd : ∀ x, tk'.st ≠ .done (.exc x))
+    (hself : TaskOK P depth (s1.setTask t tk') tk')
+    (hstart : ∀ d q, tkt.frames = [.node d q false .start] → s.proc q = true)
+    (hown : ∀ S, SwOwner s S → SwOwner (s1.setTask t tk') S ∨
+      ∀ m, S ∈ basePreds P m → (∀ d, ready P s d m = false) ∨ NoneBlocked s1 (.cond (.node m)))
+    (hmain : t = 0 → tk'.frames = [.mgrWait] → ∃ tk1, s1.tasks[1]? = some tk1 ∧ tk1.name = .run)
+    (hnew : ∀ (i : Nat) (tk : Task), s.tasks.length ≤ i → s1.tasks[i]? = some tk →
+      TaskOK P depth (s1.setTask t tk') tk ∧ tk.mustCancel = false ∧ (∀ x, tk.st ≠ .done (.exc x)) ∧
+      ∀ d n f pc, tk.frames = [.node d n f pc] → pc.exec = false) :
+    Struct P depth (s1.setTask t tk') := by
+  refine Struct.close hs ⟨tkt, htkt, hnm⟩ e hlen1 ?_ hself ?_ ?_ ?_ ?_ hmain (fun i tk hi h => (hnew i tk hi h).1)
+  · exact ldata_same hs.data e htkt hrt hres hrh hph hsw hev hproc hmc hold hnewf
+      (fun i tk hi h => ⟨(hnew i tk hi h).2.1, (hnew i tk hi h).2.2.2⟩)
+  · intro q hl
+    refine hl.close e htkt hnm ?_
+    intro d hf
+    rw [hproc]; exact hstart d q hf
+  · intro he0 hr0
+    exact Or.inl ⟨taskErrors_close_nil e htkt he0 hnd (fun i tk hi h => (hnew i tk hi h).2.2.1), by rw [hres]; exact hr0⟩
+  · intro i tki d m hit hi hb hrd hold'
+    have hrd' : ready P s d m = true := by rw [← ready_congr hres hrh hsw]; exact hrd
+    obtain ⟨S, hS, hSs, ho⟩ := hold' hrd'
+    rcases hown S ho with h | h
+    · exact ⟨S, hS, hSs, h⟩
+    · rcases h m hS with h' | h'
+      · rw [h' d] at hrd'; cases hrd'
+      · exact absurd hb (h' tki (List.mem_of_getElem? hi))
+  · intro i tk d q pc hit hi hf _ _ hn
+    rw [hres]; exact hn
+
+/-- the owners of switches survive a section of a task that is not a `_run_switch` task -/
+theorem swOwner_keep {t : Nat} {s s1 : St} (e : Ext t s s1) {tkt tk' : Task} (htkt : s.tasks[t]? = some tkt)
+    (hnot : ∀ S, ¬ ((∃ d, tkt.frames = [.switchStart d S]) ∨ (∃ d, tkt.frames = [.switchRet d S]) ∨
+        (∃ d sub, tkt.frames = [.dagInit sub, .switchRet d S]) ∨
+        (∃ d sub rest, tkt.frames = [.dagLaunch sub rest, .switchRet d S]))) {S : Node} (h : SwOwner s S) :
+    SwOwner (s1.setTask t tk') S :=
+  h.close e htkt (fun hf => absurd hf (hnot S))
+
+/-- a node task finds its node being executed by somebody else and waits for the node's event -/
+theorem struct_node_wait {P : Program} {depth : Node → Nat} {s : St} (hs : Struct P depth s) {t : Nat} {tkt : Task}
+    (htkt : s.tasks[t]? = some tkt) {d : DagRef} {q : Node} (hnm : tkt.name = .node q)
+    (hns : P.g.isSwitch q = false) (hf0 : tkt.frames = [.node d q false .start]) (hrt : ∃ rv, tkt.st = .runnable rv)
+    (hmc : tkt.mustCancel = false) (hpe : s.procExists q = true) :
+    Struct P depth (s.setTask t { tkt with frames := [.node d q false .evWait], st := .blocked (.event q) }) := by
+  have hpq : s.proc q = true := by
+    simp only [St.procExists, Bool.and_eq_true] at hpe; exact hpe.1
+  have hnc : tkt.name ≠ .caller := by rw [hnm]; intro h; cases h
+  have hnonew : ∀ (i : Nat) (tk : Task), s.tasks.length ≤ i → s.tasks[i]? = some tk → False := by
+    intro i tk hi h
+    have := getElem?_lt h
+    omega
+  refine Struct.close_same hs htkt rfl hrt (len_ne_one hs htkt hnc) (Ext.refl t s) rfl rfl rfl rfl rfl rfl hmc ?_ ?_ ?_ ?_ ?_
+    ?_ ?_ (fun i tk hi h => absurd h (fun h' => hnonew i tk hi h'))
+  · intro d' n f pc hf
+    rw [hf0] at hf; simp only [List.cons.injEq, Frame.node.injEq, and_true] at hf
+    rw [← hf.2.2.2]; rfl
+  · intro d' n f pc hf
+    simp only [List.cons.injEq, Frame.node.injEq, and_true] at hf
+    rw [← hf.2.2.2]; rfl
+  · intro x hx; cases hx
+  · exact .nodeWait _ d q hnm hns rfl (Or.inr rfl) hpq
+  · intro d' q' hf
+    rw [hf0] at hf; simp only [List.cons.injEq, Frame.node.injEq, and_true] at hf
+    rw [← hf.2]; exact hpq
+  · intro S ho
+    refine Or.inl (swOwner_keep (Ext.refl t s) htkt ?_ ho)
+    intro S' hfr
+    rcases hfr with ⟨d1, h⟩ | ⟨d1, h⟩ | ⟨d1, s1', h⟩ | ⟨d1, s1', r1, h⟩ <;> rw [hf0] at h <;> simp at h
+  · intro ht0
+    subst ht0
+    obtain ⟨tk0, h0, hn0⟩ := hs.caller
+    rw [h0] at htkt; cases htkt
+    exact absurd hn0 hnc
+
+theorem two_nodes {P : Program} (hsw : SwP P) : 2 ≤ P.g.nodes.length := by
+  have h1 := hsw.inIn.1
+  have h2 := hsw.outIn.1
+  have hne := hsw.inOut
+  match hl : P.g.nodes with
+  | [] => rw [hl] at h1; cases h1
+  | [x] =>
+    rw [hl, List.mem_singleton] at h1 h2
+    exact absurd (h1.trans h2.symm) hne
+  | _ :: _ :: _ => simp
+
+/-- what the readiness check looks at: for every entry, an edge into `m` from a node that resolves to it -/
+theorem mem_predsFor {P : Program} {s : St} {d : DagRef} {m p : Node} (h : p ∈ predsFor P s d m) :
+    ∃ u, (∃ e ∈ P.g.edges, e.u = u ∧ e.v = m) ∧ p = resolveSw P s u := by
+  unfold predsFor at h
+  simp only [List.mem_map] at h
+  obtain ⟨u, hu, hp⟩ := h
+  refine ⟨u, ?_, hp.symm⟩
+  split at hu
+  · simp only [List.mem_map, List.mem_filter, Bool.and_eq_true, beq_iff_eq] at hu
+    obtain ⟨e, ⟨he, hv, _⟩, hue⟩ := hu
+    exact ⟨e, he, hue, hv⟩
+  · split at hu
+    · simp only [List.mem_filter, Graph.preds, List.mem_map, beq_iff_eq] at hu
+      obtain ⟨⟨e, ⟨he, hv⟩, hue⟩, _⟩ := hu
+      exact ⟨e, he, hue, hv⟩
+    · simp only [Graph.preds, List.mem_map, List.mem_filter, beq_iff_eq] at hu
+      obtain ⟨e, ⟨he, hv⟩, hue⟩ := hu
+      exact ⟨e, he, hue, hv⟩
+
+/-- if `m` becomes ready because node `q` got its result, the `finally` of `q` notifies `cond[m]` -/
+theorem ready_flip {P : Program} (hsw : SwP P) {s s0 : St} (hd : LData P s) {q : Node} (hsw0 : s0.sw = s.sw)
+    (hrh : s0.resHid = s.resHid) (hres : ∀ n, n ≠ q → s0.res n = s.res n) {d : DagRef} {m : Node}
+    (h0 : ready P s0 d m = true) (h1 : ready P s d m = false) : m ∈ P.g.desc1 q := by
+  unfold ready at h0 h1
+  rw [List.all_eq_true] at h0
+  rw [List.all_eq_false] at h1
+  obtain ⟨p, hp, hno⟩ := h1
+  -- the list of sources is the same in both states (the decisions are)
+  have hsame : predsFor P s0 d m = predsFor P s d m := by unfold predsFor; rw [hsw0]
+  have h0p := h0 p (by rw [hsame]; exact hp)
+  have hpq : p = q := by
+    apply Classical.byContradiction
+    intro hne
+    have : (s0.exists p && !(s0.get p).isRecur) = (s.exists p && !(s.get p).isRecur) := by
+      simp only [St.exists, St.get, hrh, hres p hne]
+    rw [this] at h0p
+    exact hno h0p
+  subst hpq
+  obtain ⟨u, ⟨e, he, hu, hv⟩, hr⟩ := mem_predsFor hp
+  have h2 := two_nodes hsw
+  unfold resolveSw at hr
+  split at hr
+  · next hS =>
+    split at hr
+    · next l c0 hsc =>
+      -- through the switch `u`, of which `p` is the recorded case
+      rw [hr]
+      obtain ⟨_, e1, he1, hu1, hv1⟩ := hd.swEdge u l c0 hsc
+      have := mem_desc1_through_switch P.g e1 e he1 he (by rw [hv1, hu]) (by rw [hv1]; exact hS) h2
+      rw [hu1, hv] at this; exact this
+    · rw [hr]
+      have := mem_desc1_of_edge P.g e he (by intro h; rw [h] at h2; simp at h2)
+      rw [hu, hv] at this; exact this
+  · rw [hr]
+    have := mem_desc1_of_edge P.g e he (by intro h; rw [h] at h2; simp at h2)
+    rw [hu, hv] at this; exact this
+
+theorem foldl_last_get {α β : Type} (f : α → β) : ∀ (l : List α) (init : β),
+    l.foldl (fun _ a => f a) init = match l.getLast? with | some a => f a | none => init := by
+  intro l
+  induction l with
+  | nil => intro init; rfl
+  | cons a l ih =>
+    intro init
+    simp only [List.foldl_cons]
+    rw [ih]
+    cases hl : l.getLast? with
+    | none =>
+      have : l = [] := by simpa using hl
+      subst this; rfl
+    | some b =>
+      have : (a :: l).getLast? = some b := by
+        cases l with
+        | nil => simp at hl
+        | cons c l' => simp [List.getLast?_cons_cons] at hl ⊢; exact hl
+      rw [this]
+
+/-- a recorded decision still is what the lookup gives after a node that had no result got one -/
+theorem switchSelect_stable {P : Program} {s s0 : St} {q : Node} (hrh : s0.resHid = s.resHid) (hq : s.res q = none)
+    (hres : ∀ n, n ≠ q → s0.res n = s.res n) {S : Node} {lc : Label × Node} (h : switchSelect P s S = some lc) :
+    switchSelect P s0 S = some lc := by
+  unfold switchSelect at *
+  have hlab : switchLabel P s0 S = switchLabel P s S := by
+    unfold switchLabel
+    rw [foldl_last_get (fun (e : Edge) => s0.get e.u), foldl_last_get (fun (e : Edge) => s.get e.u)]
+    cases hl : ((P.g.edges.filter (fun e => e.v == S)).filter (·.isSwitch)).getLast? with
+    | none => rfl
+    | some e =>
+      simp only []
+      by_cases he : e.u = q
+      · -- the decision node had no result: the old lookup found nothing
+        exfalso
+        unfold switchLabel at h
+        rw [foldl_last_get (fun (e : Edge) => s.get e.u), hl] at h
+        have hg : s.get q = .none := by simp [St.get, hq]
+        simp only [he, hg] at h
+        cases h
+      · simp only [St.get, hrh, hres e.u he]
+  rw [hlab]; exact h
+
+/-- no other task executes the node of an executing task, nor of a fresh task that finds its node unprocessed -/
+theorem no_other_executor {P : Program} {depth : Node → Nat} {s : St} (hs : Struct P depth s) {t : Nat} {tkt : Task}
+    (htkt : s.tasks[t]? = some tkt) {d : DagRef} {q : Node} {pc0 : NodePc} (hf0 : tkt.frames = [.node d q false pc0])
+    (h : pc0.exec = true ∨ s.procExists q = false) :
+    ∀ (j : Nat) (tj : Task) (d2 : DagRef) (f2 : Bool) (p2 : NodePc), j ≠ t → s.tasks[j]? = some tj →
+      tj.frames = [.node d2 q f2 p2] → p2.exec = true → False := by
+  intro j tj d2 f2 p2 hjt hj hfj hp2
+  rcases h with hp0 | hpe
+  · exact hjt (hs.data.uniq j t tj tkt q d2 d f2 false p2 pc0 hj htkt hfj hf0 hp2 hp0)
+  · have := hs.tasks j tj hj
+    cases this with
+    | nodeExec d0 q0 pc hn' hns' hfr' hpc1 hpc2 hl' hproc' hnr' =>
+      rw [hfr'] at hfj; simp only [List.cons.injEq, Frame.node.injEq, and_true] at hfj
+      obtain ⟨_, hq, _, _⟩ := hfj
+      subst hq
+      simp [St.procExists, hproc', (hs.data.noHid q0).2] at hpe
+    | nodeStart d0 q0 hn' hns' hfr' hst' =>
+      rw [hfr'] at hfj; simp only [List.cons.injEq, Frame.node.injEq, and_true] at hfj
+      obtain ⟨_, _, _, hp⟩ := hfj; subst hp; cases hp2
+    | nodeWait d0 q0 hn' hns' hfr' hst' hproc' =>
+      rw [hfr'] at hfj; simp only [List.cons.injEq, Frame.node.injEq, and_true] at hfj
+      obtain ⟨_, _, _, hp⟩ := hfj; subst hp; cases hp2
+    | callerStart hn' hfr' => rw [hfr'] at hfj; simp at hfj
+    | callerWait hn' hfr' => rw [hfr'] at hfj; simp at hfj
+    | main F d0 hn' hfr' hdf' => rw [hfr'] at hfj; simp only [List.cons.injEq, and_true] at hfj; subst hfj; cases hdf'
+    | mainDone hn' hfr' => rw [hfr'] at hfj; simp at hfj
+    | nodeDone q0 r0 hn' hns' hfr' => rw [hfr'] at hfj; simp at hfj
+    | swStart d0 S0 hn' hsS' hfr' => rw [hfr'] at hfj; simp at hfj
+    | swIn F sub d0 S0 hn' hsS' hfr' => rw [hfr'] at hfj; simp at hfj
+    | swRet d0 S0 hn' hsS' hfr' => rw [hfr'] at hfj; simp at hfj
+    | swDone S0 r0 hn' hsS' hfr' => rw [hfr'] at hfj; simp at hfj
+
+/-- **a node task leaves `_run_node`**: `s0` is the state before the `finally` — `s`, possibly with the node marked as
+processed and / or its result stored — and the task ends with `r` -/
+theorem struct_node_done {P : Program} {depth : Node → Nat} (hp : LiveP P depth) {s s0 : St} (hs : Struct P depth s)
+    {t : Nat} {tkt : Task} (htkt : s.tasks[t]? = some tkt) {d : DagRef} {q : Node} {pc0 : NodePc}
+    (hnm : tkt.name = .node q) (hns : P.g.isSwitch q = false) (hf0 : tkt.frames = [.node d q false pc0])
+    (hrt : ∃ rv, tkt.st = .runnable rv)
+    (htasks : s0.tasks = s.tasks) (hsw : s0.sw = s.sw) (hev : s0.evSet = s.evSet) (hrh : s0.resHid = s.resHid)
+    (hph : ∀ n, s0.procHid n = false) (hpq : s0.proc q = true)
+    (hprocs : ∀ n, s0.proc n = true → n = q ∨ s.proc n = true) (hprocm : ∀ n, s.proc n = true → s0.proc n = true)
+    (hresn : ∀ n, n ≠ q → s0.res n = s.res n)
+    (hresq : s0.res q = s.res q ∨ (∃ v, s0.res q = some v ∧ v.isRecur = false ∧ s.res q = none ∧
+      (pc0.exec = true ∨ s.procExists q = false)))
+    (r : TaskRes) (hr : (∃ x, r = .exc x) ∨ (r = .ok ∧ ((s0.res q).isSome = true ∨ s.evSet q = true))) :
+    Struct P depth ((nodeFinally P s0 d q true).setTask t { tkt with frames := [], st := .done r, mustCancel := false }) := by
+  have hd := hs.data
+  have hnc : tkt.name ≠ .caller := by rw [hnm]; intro h; cases h
+  have hrt0 : ∀ tk0, s0.tasks[t]? = some tk0 → ∃ rv, tk0.st = .runnable rv := by
+    intro tk0 h; rw [htasks, htkt] at h; cases h; exact hrt
+  have hresm : ∀ n v, s.res n = some v → s0.res n = some v := by
+    intro n v h
+    by_cases hnq : n = q
+    · subst hnq
+      rcases hresq with h' | ⟨w, _, _, h', _⟩
+      · rw [h']; exact h
+      · rw [h'] at h; cases h
+    · rw [hresn n hnq]; exact h
+  have e0 : Ext t s s0 := Ext.of_data htasks hresm (fun S lc h => by rw [hsw]; exact h) hprocm
+    (fun n h => by rw [hev]; exact h)
+  have e1 : Ext t s0 (nodeFinally P s0 d q true) := Ext.nodeFinally d q hrt0
+  have e : Ext t s (nodeFinally P s0 d q true) := e0.trans e1
+  obtain ⟨f1, f2, f3, f4, _, f6, _, _⟩ := nodeFinally_fields P s0 d q true
+  have fev := evSet_nodeFinally P s0 d q
+  obtain ⟨w1, w2, w3, _⟩ := nodeFinally_wakes P s0 d q
+  have hlt := e.lt htkt
+  have hnonew : ∀ (i : Nat) (tk : Task), s.tasks.length ≤ i → (nodeFinally P s0 d q true).tasks[i]? = some tk → False := by
+    intro i tk hi h
+    have h1 : (nodeFinally P s0 d q true).tasks.length = s.tasks.length := by
+      rw [← htasks]
+      have := len_unwindFrames P [.node d q false .evWait] s0
+      simpa [unwindFrames] using this
+    have := getElem?_lt h
+    omega
+  -- abbreviations for the final state
+  have hevq : ∀ n, (nodeFinally P s0 d q true).evSet n = true ↔ n = q ∨ s.evSet n = true := by
+    intro n
+    rw [fev]
+    simp only [upd]
+    split
+    · next h => simp [h]
+    · next h => rw [hev]; simp [h]
+  have hnoHid : ∀ n, (St.setTask (nodeFinally P s0 d q true) t
+      { tkt with frames := [], st := .done r, mustCancel := false }).resHid n = false ∧
+      (St.setTask (nodeFinally P s0 d q true) t { tkt with frames := [], st := .done r, mustCancel := false }).procHid n = false := by
+    intro n
+    constructor
+    · rw [show (St.setTask _ t _).resHid = (nodeFinally P s0 d q true).resHid from rfl, f2, hrh]
+      exact (hd.noHid n).1
+    · rw [show (St.setTask _ t _).procHid = (nodeFinally P s0 d q true).procHid from rfl, f4]
+      exact hph n
+  refine Struct.close hs ⟨tkt, htkt, rfl⟩ e (len_ne_one hs htkt hnc) ?_ ?_ ?_ ?_ ?_ ?_ ?_ ?_
+  · refine ⟨hnoHid, ?_, ?_, ?_, ?_, ?_, ?_, ?_, ?_, ?_⟩
+    · intro n v h
+      rw [show (St.setTask _ t _).res = (nodeFinally P s0 d q true).res from rfl, f1] at h
+      by_cases hnq : n = q
+      · subst hnq
+        rcases hresq with h' | ⟨w, h', hw, _, _⟩
+        · exact hd.noRec n v (by rw [← h']; exact h)
+        · rw [h'] at h; cases h; exact hw
+      · exact hd.noRec n v (by rw [← hresn n hnq]; exact h)
+    · intro n hn
+      rw [show (St.setTask _ t _).proc = (nodeFinally P s0 d q true).proc from rfl, f3] at hn
+      rw [show (St.setTask _ t _).evSet = (nodeFinally P s0 d q true).evSet from rfl]
+      rcases hprocs n hn with rfl | h
+      · exact Or.inl ((hevq n).mpr (Or.inl rfl))
+      · rcases hd.c1 n h with h' | h'
+        · exact Or.inl ((hevq n).mpr (Or.inr h'))
+        · by_cases hnq : n = q
+          · exact Or.inl ((hevq n).mpr (Or.inl hnq))
+          · refine Or.inr (h'.close e htkt ?_)
+            intro d' f' pc hf' _
+            rw [hf0] at hf'; simp only [List.cons.injEq, Frame.node.injEq, and_true] at hf'
+            exact hnq hf'.2.1.symm
+    · intro n hn
+      rw [show (St.setTask _ t _).evSet = (nodeFinally P s0 d q true).evSet from rfl] at hn
+      rw [show (St.setTask _ t _).res = (nodeFinally P s0 d q true).res from rfl, f1]
+      have old : s.evSet n = true → (s0.res n).isSome = true ∨ taskErrors (St.setTask (nodeFinally P s0 d q true) t
+          { tkt with frames := [], st := .done r, mustCancel := false }) ≠ [] := by
+        intro h
+        rcases hd.c4 n h with h' | h'
+        · left
+          cases hrn : s.res n with
+          | none => rw [hrn] at h'; cases h'
+          | some v => rw [hresm n v hrn]; rfl
+        · exact Or.inr (taskErrors_close_mono e htkt hrt h')
+      rcases (hevq n).mp hn with rfl | h
+      · rcases hr with ⟨x, rfl⟩ | ⟨_, h' | h'⟩
+        · exact Or.inr (taskErrors_close_exc e htkt rfl)
+        · exact Or.inl h'
+        · exact old h'
+      · exact old h
+    · intro n hn
+      rw [show (St.setTask _ t _).res = (nodeFinally P s0 d q true).res from rfl, f1] at hn
+      rw [show (St.setTask _ t _).evSet = (nodeFinally P s0 d q true).evSet from rfl]
+      by_cases hnq : n = q
+      · exact (hevq n).mpr (Or.inl hnq)
+      · exact (hevq n).mpr (Or.inr (hd.c5 n (by rw [← hresn n hnq]; exact hn)))
+    · intro S l c h
+      rw [show (St.setTask _ t _).sw = (nodeFinally P s0 d q true).sw from rfl, f6, hsw] at h
+      exact hd.swEdge S l c h
+    · intro S lc h
+      rw [show (St.setTask _ t _).sw = (nodeFinally P s0 d q true).sw from rfl, f6, hsw] at h
+      have h1 := hd.swSel S lc h
+      have h2 : switchSelect P s0 S = some lc := by
+        rcases hresq with h' | ⟨w, _, _, h', _⟩
+        · have : s0.res = s.res := by
+            funext n
+            by_cases hnq : n = q
+            · rw [hnq]; exact h'
+            · exact hresn n hnq
+          rw [switchSelect_congr this hrh]; exact h1
+        · exact switchSelect_stable hrh h' hresn h1
+      rw [show switchSelect P (St.setTask _ t _) S = switchSelect P (nodeFinally P s0 d q true) S from rfl,
+        switchSelect_congr f1 f2]
+      exact h2
+    · intro n hn
+      rw [show (St.setTask _ t _).res = (nodeFinally P s0 d q true).res from rfl, f1] at hn
+      rw [show (St.setTask _ t _).proc = (nodeFinally P s0 d q true).proc from rfl, f3]
+      by_cases hnq : n = q
+      · rw [hnq]; exact hpq
+      · exact hprocm n (hd.c6 n (by rw [← hresn n hnq]; exact hn))
+    · refine uniq_close e hd htkt ?_ (fun i tk hi h => absurd h (fun h' => hnonew i tk hi h'))
+      intro d1 q1 f1' pc1 hfr
+      cases hfr
+    · exact noCancel_close e htkt hd.noCancel rfl (fun i tk hi h => absurd h (fun h' => hnonew i tk hi h'))
+  · refine .nodeDone _ q r hnm hns rfl rfl ?_ ?_
+    · rcases hr with ⟨x, rfl⟩ | ⟨rfl, _⟩ <;> intro h <;> cases h
+    · exact (hevq q).mpr (Or.inl rfl)
+  · intro q' hl
+    refine Launched.close (tk' := { tkt with frames := [], st := .done r, mustCancel := false }) e htkt rfl hl ?_
+    intro d' hf'
+    rw [hf0] at hf'; simp only [List.cons.injEq, Frame.node.injEq, and_true] at hf'
+    rw [f3, ← hf'.2.1]; exact hpq
+  · intro _ _
+    exact Or.inr w2
+  · intro i tki d' m hit hi hb hrd hold
+    by_cases hrd' : ready P s d' m = true
+    · obtain ⟨S, hS, hSs, ho⟩ := hold hrd'
+      refine ⟨S, hS, hSs, swOwner_keep e htkt ?_ ho⟩
+      intro S' hfr
+      rcases hfr with ⟨d1, h⟩ | ⟨d1, h⟩ | ⟨d1, s1', h⟩ | ⟨d1, s1', r1, h⟩ <;> rw [hf0] at h <;> simp at h
+    · -- `m` has become ready through the result of `q`: its condition has just been notified
+      exfalso
+      have hrd0 : ready P s0 d' m = true := by rw [← ready_congr f1 f2 f6]; exact hrd
+      have := ready_flip hp.sw hd hsw hrh hresn hrd0 (by simpa using hrd')
+      exact w3 m this tki (List.mem_of_getElem? hi) hb
+  · intro i tk d' q' pc hit hi hf hp1 hp2 hn
+    rw [f1]
+    by_cases hq' : q' = q
+    · subst hq'
+      rcases hresq with h' | ⟨w, _, _, _, hex⟩
+      · rw [h']; exact hn
+      · -- another task executing `q'`: impossible
+        exfalso
+        have hex' : pc.exec = true := by cases pc <;> simp_all [NodePc.exec]
+        exact no_other_executor hs htkt hf0 hex i tk d' false pc hit hi hf hex'
+    · rw [hresn q' hq']; exact hn
+  · intro ht0
+    subst ht0
+    obtain ⟨tk0, h0, hn0⟩ := hs.caller
+    rw [h0] at htkt; cases htkt
+    exact absurd hn0 hnc
+  · intro i tk hi h
+    exact absurd h (fun h' => hnonew i tk hi h')
 
 end MLPE.Eng
